@@ -166,6 +166,43 @@ def applyCmdT (s : State) (c : Cmd) : State :=
   | .ok s' => s'
   | .panic => s
 
+/-! ### names for the extraction obligations (`Generated/RaftCommands.lean`, `Props/C35.lean`) -/
+
+/-- the `ClusterCommand` variant a model command mirrors -/
+def Cmd.tag : Cmd → String
+  | .registerWorker .. => "RegisterWorker"
+  | .deregisterWorker .. => "DeregisterWorker"
+  | .workerStatusChanged .. => "WorkerStatusChanged"
+  | .workerPipelinesUpdated .. => "WorkerPipelinesUpdated"
+  | .groupDeployed .. => "GroupDeployed"
+  | .groupUpdated .. => "GroupUpdated"
+  | .groupRemoved .. => "GroupRemoved"
+  | .migrationStarted .. => "MigrationStarted"
+  | .migrationUpdated .. => "MigrationUpdated"
+  | .migrationRemoved .. => "MigrationRemoved"
+  | .connectorCreated .. => "ConnectorCreated"
+  | .connectorUpdated .. => "ConnectorUpdated"
+  | .connectorRemoved .. => "ConnectorRemoved"
+  | .scalingPolicySet .. => "ScalingPolicySet"
+  | .modelRegistered .. => "ModelRegistered"
+  | .modelRemoved .. => "ModelRemoved"
+
+/-- all tags, in the order of the constructors (= source order of the variants) -/
+def Cmd.tags : List String :=
+  ["RegisterWorker", "DeregisterWorker", "WorkerStatusChanged", "WorkerPipelinesUpdated", "GroupDeployed",
+   "GroupUpdated", "GroupRemoved", "MigrationStarted", "MigrationUpdated", "MigrationRemoved",
+   "ConnectorCreated", "ConnectorUpdated", "ConnectorRemoved", "ScalingPolicySet", "ModelRegistered", "ModelRemoved"]
+
+/-- source names of the `CoordinatorState` fields mirrored by `State` (same order) -/
+def State.fieldNames : List String :=
+  ["workers", "pipeline_groups", "connectors", "active_migrations", "scaling_policy", "models"]
+
+/-- `s'` differs from `s` at most in the field with source name `f` -/
+def frame (f : String) (s s' : State) : Prop :=
+  (f = "workers" ∨ s'.workers = s.workers) ∧ (f = "pipeline_groups" ∨ s'.groups = s.groups) ∧
+  (f = "connectors" ∨ s'.connectors = s.connectors) ∧ (f = "active_migrations" ∨ s'.migrations = s.migrations) ∧
+  (f = "scaling_policy" ∨ s'.policy = s.policy) ∧ (f = "models" ∨ s'.models = s.models)
+
 /-- well-formed replicated state: every stored migration task is a JSON object (what
 `MigrationStarted` can insert), so `MigrationUpdated` cannot panic -/
 def State.WF (s : State) : Prop := ∀ p ∈ s.migrations, ∃ fs, p.2 = Task.obj fs
